@@ -139,7 +139,10 @@ impl IcmpForwarder {
                     continue;
                 }
                 Some(ReplyWaiter { waker_tx, .. }) => match waker_tx.try_send((peer, reply)) {
-                    Ok(_) => (),
+                    Ok(_) => {
+                        // the request is answered: a duplicate or a later error is not reported again
+                        listeners.reply_waiters.remove(&request);
+                    }
                     Err(mpsc::error::TrySendError::Closed((peer, message))) => {
                         debug!(
                             "Listener closed: peer={} request={:?} reply={:?}",
